@@ -320,22 +320,536 @@ def forced_part(ctx, ws):
     ctx.samples += [{"case": lines[i], "implementation": a, "model": model[i]} for i, a in list(zip(keep, impl))[:3]]
 
 
-RULE = "tbd"
+
+# ---------------------------------------------------------------------------------------------------
+# the Lean witnesses, replayed on the real code through the hook controller
+# ---------------------------------------------------------------------------------------------------
+
+# (name of the theorem, pre, main ops, threads, forced schedule, expected classes of the threads on the CURRENT source)
+WITNESSES = [
+    ("half_annotated_visible", [], [], [("def", "D"), ("def", "D")], [1, 1, 1, 2], {1: "v1", 2: "other"}),
+    ("stale_saved_visible (pinned handler; repaired: answered from the version before)", ["C:D:2"], ["C:D:3"], [("sym", "D")],
+     [0, 1], {1: "v2"}),
+    ("mixed_versions_visible", [], ["C:D:3"], [("diag", "D")], [0, 1, 0, 1], {1: "mix1.3"}),
+    ("stale_table_visible", [], ["C:D:2"], [("def", "D"), ("xcompl", "D")], [1, 1, 0, 0, 1, 1, 2], {1: "v1", 2: "v1"}),
+    ("double_annotation_reachable", [], [], [("diag", "D"), ("diag", "D")], [1, 1, 2, 1, 2], {1: "v1", 2: "v1"}),
+]
+
+
+def witness_part(ctx, ws):
+    lines = [case_line(ws, pre, ops, th, sch, PROBES) for _, pre, ops, th, sch, _ in WITNESSES]
+    model = ctx.run_driver(lines)
+    impl = run_conc(ctx, lines, 1)
+    ok = True
+    detail = []
+    for (name, pre, ops, threads, sch, want), line, a, m in zip(WITNESSES, lines, impl, model):
+        ctx.evaluations += 1
+        o = parse_out(a)
+        got = {t: c for t, (c, _) in o["threads"].items()} if o else {}
+        good = o is not None and all(class_agrees(got.get(t, "?"), c) or got.get(t) == c for t, c in want.items()) and same(a, m)
+        if not good:
+            ok = False
+            detail.append("%s: real %s / model %s" % (name, a, m))
+            ctx.disagreements.append(("conc-witness", line, a, m))
+        r = judge(threads, a)
+        fails, oo = r if isinstance(r, tuple) else (r, None)
+        if oo is not None and oo["fin"] == "ok":
+            fails = fails + judge_probes(PROBES, oo)
+        for kind, what in fails:
+            sig, gen = SIGS[kind]
+            ctx.oracle_fail(sig, gen + " — " + what + " [schedule of Gold.C03.%s]" % name.split()[0],
+                            {"mode": "conc", "case": line, "implementation": a, "model": m})
+        ctx.samples.append({"witness": name, "case": " ".join(line.split()[2:]), "implementation": a, "model": m})
+    ctx.oblige("tie:witness-replay (%d Lean witnesses forced on the real code)" % len(WITNESSES), ok, "; ".join(detail))
+
+
+# ---------------------------------------------------------------------------------------------------
+# free-running stress on real parallel threads
+# ---------------------------------------------------------------------------------------------------
+
+def parse_stress(line):
+    """'stress t1=v1/1 t2=… q=… fin=ok' -> ([(tid, class, allowed)], [(class,last)], fin)"""
+    if not line.startswith("stress "):
+        return None
+    ths, q, fin = [], [], None
+    for w in line.split()[1:]:
+        k, _, v = w.partition("=")
+        if k == "fin":
+            fin = v
+        elif k == "q":
+            q = [tuple(x.split("/", 1)) for x in v.split(",") if x]
+        elif k == "live":
+            pass
+        elif k.startswith("t") and k[1:].isdigit():
+            c, _, a = v.partition("/")
+            ths.append((int(k[1:]), c, [x for x in a.split(".") if x]))
+        else:
+            return None
+    return ths, q, fin
+
+
+def stress_part(ctx, ws):
+    quick = ctx.tier == "quick"
+    n = 150 if quick else 3000
+    cases = []
+    for i in range(n):
+        rng = ctx.rng
+        nreq = 2 + rng.below(4 if quick else 7)
+        # most threads on one document: that is where requests corrupt each other
+        threads = [(rng.choice(KINDS), "D" if rng.chance(4, 5) else "E") for _ in range(nreq)]
+        pre = []
+        if rng.chance(1, 3):
+            pre.append("C:D:2")
+        ops, ver = [], 3
+        for _ in range(rng.below(4)):
+            r = rng.below(10)
+            if r < 7:
+                ops.append("C:D:%d" % ver)
+                ver += 1
+            elif r < 9:
+                ops.append("S:D:%d" % ver)
+                ver += 1
+            else:
+                ops.append("K:D")
+        probes = [("sym", "D"), ("compl", "D"), ("subm", "D"), ("xcompl", "D")]
+        line = case_line(ws, pre, ops, threads, [], probes).replace(" S ", " X%d " % (1 + rng.below(3)))
+        cases.append((line, threads, probes))
+    t0 = time.time()
+    outs = run_conc(ctx, [c[0] for c in cases], 4 if quick else 8, deadline_ms=90000)
+    ctx.log("%d free-running stress runs in %.1fs" % (len(cases), time.time() - t0))
+    nans = 0
+    for (line, threads, probes), o in zip(cases, outs):
+        ctx.evaluations += 1
+        ctx.count("stress")
+        if o.startswith("stress fin=deadlock") or o.startswith("hang"):
+            sig, gen = SIGS["deadlock"]
+            ctx.oracle_fail(sig, gen + " — " + o, {"mode": "conc-stress", "case": line, "implementation": o})
+            continue
+        ps = parse_stress(o)
+        if ps is None or ps[2] != "ok":
+            sig, gen = SIGS["crash"]
+            ctx.oracle_fail(sig, gen + " — " + o[:200], {"mode": "conc-stress", "case": line, "implementation": o})
+            continue
+        ths, q, _ = ps
+        docs = {}
+        for k, d in threads:
+            docs.setdefault(d, []).append(k)
+        for t, cls, allowed in ths:
+            nans += 1
+            k, d = threads[t - 1]
+            vs = versions_of(cls)
+            kind = None
+            if vs is not None:
+                if not set(vs) & set(allowed):
+                    kind = "stale-table" if k in TABLE_KINDS else "stale-saved"
+            elif cls.startswith("mix"):
+                kind = "mixed"
+            elif cls == "other":
+                kind = "half" if k != "sym" and len([x for x in docs[d] if x != "sym"]) >= 2 else "other"
+            else:
+                kind = "crash"
+            if kind:
+                sig, gen = SIGS[kind]
+                ctx.oracle_fail(sig, gen + " — thread %d (%s on a%s): %s, allowed %s" % (t, k, d, cls, ",".join(allowed)),
+                                {"mode": "conc-stress", "case": line, "implementation": o})
+        for (k, d), (cls, last) in zip(probes, q):
+            vs = versions_of(cls)
+            if vs is None or last not in vs:
+                sig, gen = SIGS["stale-table" if k in TABLE_KINDS else "stale-after"]
+                ctx.oracle_fail(sig, gen + " — probe %s on a%s: %s, the document has version %s" % (k, d, cls, last),
+                                {"mode": "conc-stress", "case": line, "implementation": o})
+    ctx.coverage_stress = {"runs": len(cases), "answers_judged": nans}
+
+
+# ---------------------------------------------------------------------------------------------------
+# black box: a pipelined batch on the real binary vs the same requests one at a time
+# ---------------------------------------------------------------------------------------------------
+
+def text_of(doc, ver):
+    """the texts of harness/src/modes/conc.rs::text_of (the two must stay identical)"""
+    if doc == "X":
+        return "class aX\n\nproc P_X(A : Int4)\n   var x : Int4\n   var y : aD\n   x = y.\nendProc\n"
+    if doc in ("BD", "BE"):
+        return "class a%s\n\nF_B : Int4\n\nproc M\nendProc\n" % doc
+    l = ["class a%s (aB%s)" % (doc, doc), "", "proc P_%s_%d(A : Int4)" % (doc, ver), "   var x : Int4", "   var u_%s_%d : Int4" % (doc, ver),
+         "   x = self.F_%s_%d + A" % (doc, ver), "   x = self.", "endProc", ""]
+    l += ["const cK%d = 'k'" % i for i in range(ver)]
+    l += ["F_%s_%d : Int4" % (doc, ver), "g_%s_%d : Int4" % (doc, ver), "", "proc M", "endProc", ""]
+    return "\n".join(l)
+
+
+ALL_DOCS = ["D", "E", "X", "BD", "BE"]
+READY = "Building class tree"
+
+
+def bb_request(root, kind, doc):
+    u = lsp.path_uri(os.path.join(root, "a%s.god" % doc))
+    if kind == "sym":
+        return "textDocument/documentSymbol", lsp.td(u)
+    if kind == "diag":
+        return "textDocument/diagnostic", lsp.td(u)
+    if kind == "compl":
+        return "textDocument/completion", lsp.tdpos(u, 6, len("   x = self."))
+    if kind == "def":
+        return "textDocument/definition", lsp.tdpos(u, 5, len("   x = self.") + 1)
+    if kind == "defp":
+        return "textDocument/definition", lsp.tdpos(u, 5, len("   x = self.F_%s_1 + A" % doc) - 1)
+    if kind == "prep":
+        return "textDocument/prepareTypeHierarchy", lsp.tdpos(u, 0, 7)
+    if kind in ("subc", "subm"):
+        ub = lsp.path_uri(os.path.join(root, "aB%s.god" % doc))
+        it = lsp.hierarchy_item(ub, "aB%s" % doc if kind == "subc" else "M")
+        it["item"]["kind"] = 5 if kind == "subc" else 12
+        return "typeHierarchy/subtypes", it
+    if kind == "sup":
+        it = lsp.hierarchy_item(u, "M")
+        it["item"]["kind"] = 12
+        return "typeHierarchy/supertypes", it
+    if kind == "xcompl":
+        ux = lsp.path_uri(os.path.join(root, "aX.god"))
+        return "textDocument/completion", lsp.tdpos(ux, 5, len("   x = y."))
+    raise ValueError(kind)
+
+
+def bb_canon(x, root):
+    if isinstance(x, dict):
+        return {k: bb_canon(v, root) for k, v in sorted(x.items())}
+    if isinstance(x, list):
+        return sorted((bb_canon(v, root) for v in x), key=lambda v: json.dumps(v, sort_keys=True))
+    if isinstance(x, str):
+        return x.replace(lsp.path_uri(root), "<ROOT>").replace(root, "<ROOT>")
+    return x
+
+
+def bb_answer(resps, rid, root):
+    if rid not in resps:
+        return None
+    m = resps[rid][0]
+    if "error" in m:
+        return json.dumps({"_error": m["error"].get("code")})
+    return json.dumps(bb_canon(m.get("result"), root), sort_keys=True)
+
+
+def bb_materialise(root, vers):
+    os.makedirs(root, exist_ok=True)
+    for d in ALL_DOCS:
+        with open(os.path.join(root, "a%s.god" % d), "w") as f:
+            f.write(text_of(d, vers.get(d, 1)))
+    return os.path.realpath(root)
+
+
+_BB_SOLO = {}
+
+
+def bb_solo(wsdir, doc, ver, kinds):
+    """one at a time: a fresh binary whose file `doc` has version `ver`; every request waits for its answer"""
+    need = [k for k in kinds if (k, doc, ver) not in _BB_SOLO]
+    if need:
+        root = bb_materialise(os.path.join(wsdir, "solo-%s-%d" % (doc, ver)), {doc: ver})
+        srv = lsp.Server(root, stderr_path=root + ".stderr")
+        try:
+            srv.wait_log(READY, 30.0)
+            for i, k in enumerate(need):
+                m, p = bb_request(root, k, doc)
+                srv.request(i + 1, m, p)
+                r = srv.settle([i + 1], 30.0)
+                _BB_SOLO[(k, doc, ver)] = bb_answer(r, i + 1, root)
+        finally:
+            srv.kill()
+            shutil.rmtree(root, ignore_errors=True)
+            try:
+                os.remove(root + ".stderr")
+            except OSError:
+                pass
+    return {k: _BB_SOLO[(k, doc, ver)] for k in kinds}
+
+
+def bb_batch(ctx, wsdir, idx, msgs, probes):
+    """msgs: [("req", kind, doc) | ("chg", doc, ver)]; everything is written to the server without waiting"""
+    root = bb_materialise(os.path.join(wsdir, "bb-%d" % idx), {})
+    srv = lsp.Server(root, stderr_path=root + ".stderr")
+    out = {"answers": {}, "probes": [], "hang": None}
+    try:
+        srv.wait_log(READY, 30.0)
+        ids = []
+        for i, m in enumerate(msgs):
+            if m[0] == "req":
+                meth, par = bb_request(root, m[1], m[2])
+                srv.request(i + 1, meth, par)
+                ids.append(i + 1)
+            else:
+                u = lsp.path_uri(os.path.join(root, "a%s.god" % m[1]))
+                srv.notify("textDocument/didChange", lsp.did_change(u, text_of(m[1], m[2]), m[2]))
+        r = srv.settle(ids, 30.0)
+        for i in ids:
+            out["answers"][i] = bb_answer(r, i, root)
+        missing = [i for i in ids if i not in r]
+        if missing:
+            out["hang"] = {"missing": missing, "alive": srv.alive(), "idle": srv.idle(1.0) if srv.alive() else False}
+        else:
+            for j, (k, d) in enumerate(probes):
+                meth, par = bb_request(root, k, d)
+                rid = 1000 + j
+                srv.request(rid, meth, par)
+                rr = srv.settle([rid], 30.0)
+                out["probes"].append(bb_answer(rr, rid, root))
+    finally:
+        srv.kill()
+        shutil.rmtree(root, ignore_errors=True)
+        try:
+            os.remove(root + ".stderr")
+        except OSError:
+            pass
+    return out
+
+
+def diag_items(ans):
+    try:
+        v = json.loads(ans)
+        return [json.dumps(i, sort_keys=True) for i in v["items"]]
+    except Exception:
+        return None
+
+
+def blackbox_part(ctx, ws):
+    quick = ctx.tier == "quick"
+    n = 30 if quick else 400
+    wsdir = os.path.join(ws, "bb")
+    os.makedirs(wsdir, exist_ok=True)
+    batches = []
+    for b in range(n):
+        rng = ctx.rng
+        msgs = []
+        ver = {"D": 2, "E": 2}
+        nreq = 2 + rng.below(7)
+        nchg = rng.below(3)
+        slots = ["req"] * nreq + ["chg"] * nchg
+        rng.shuffle(slots)
+        for sl in slots:
+            d = "D" if rng.chance(4, 5) else "E"
+            if sl == "req":
+                msgs.append(("req", rng.choice(KINDS), d))
+            else:
+                msgs.append(("chg", d, ver[d]))
+                ver[d] += 1
+        batches.append((msgs, [("sym", "D"), ("compl", "D"), ("subm", "D"), ("xcompl", "D")]))
+    t0 = time.time()
+    with concurrent.futures.ThreadPoolExecutor(max_workers=6) as ex:
+        futs = [ex.submit(bb_batch, ctx, wsdir, i, m, p) for i, (m, p) in enumerate(batches)]
+        results = [f.result() for f in futs]
+    nreqs = 0
+    for (msgs, probes), res in zip(batches, results):
+        ctx.evaluations += 1
+        ctx.count("blackbox-batch")
+        case = {"mode": "blackbox", "messages": [list(m) for m in msgs], "probes": [list(p) for p in probes]}
+        # the versions of each document along the stream
+        hist = {"D": [1], "E": [1]}
+        lo_of = {}
+        for i, m in enumerate(msgs):
+            if m[0] == "chg":
+                hist[m[1]].append(m[2])
+            else:
+                lo_of[i + 1] = len(hist[m[2]]) - 1     # notifications before it in the stream have returned
+        if res["hang"]:
+            h = res["hang"]
+            unanswered = [msgs[i - 1] for i in h["missing"]]
+            docs = {m[2] for m in unanswered}
+            if h["alive"] and h["idle"] and len([m for m in unanswered if m[1] != "sym"]) >= 2 and len(docs) == 1:
+                sig, gen = SIGS["deadlock"]
+                ctx.oracle_fail(sig, gen + " — pipelined batch: %d analysis requests about a%s never answered, server alive and idle"
+                                % (len(unanswered), list(docs)[0]), dict(case, observed=h))
+            else:
+                sig, gen = SIGS["none"]
+                ctx.oracle_fail(sig, gen + " — pipelined batch: %s" % h, dict(case, observed=h))
+            continue
+        for i, m in enumerate(msgs):
+            if m[0] != "req":
+                continue
+            nreqs += 1
+            rid, k, d = i + 1, m[1], m[2]
+            ans = res["answers"][rid]
+            vers = hist[d]
+            solos = {v: bb_solo(wsdir, d, v, [k])[k] for v in sorted(set(vers))}
+            allowed = vers[lo_of[rid]:]
+            if any(solos[v] == ans for v in allowed):
+                continue
+            stale = [v for v in vers[:lo_of[rid]] if solos[v] == ans]
+            if stale:
+                kind = "stale-table" if k in TABLE_KINDS else "stale-saved"
+                what = "request #%d (%s on a%s) answered from version %s, the versions since its receipt are %s" % (rid, k, d, stale[0], allowed)
+            else:
+                kind = None
+                if k == "diag":
+                    items = diag_items(ans) if ans else None
+                    if items is not None:
+                        for a_ in sorted(set(vers)):
+                            for b_ in sorted(set(vers)):
+                                if a_ < b_:
+                                    ia, ib = diag_items(solos[a_]) or [], diag_items(solos[b_]) or []
+                                    if all(x in ia or x in ib for x in items) and any(x in ia and x not in ib for x in items) \
+                                            and any(x in ib and x not in ia for x in items):
+                                        kind = "mixed"
+                                        what = "request #%d (diagnostic on a%s): items from versions %d and %d in one report" % (rid, d, a_, b_)
+                if kind is None:
+                    others = [x for x in msgs if x[0] == "req" and x[2] == d and x[1] != "sym"]
+                    kind = "half" if k != "sym" and len(others) >= 2 else "other"
+                    what = "request #%d (%s on a%s): the pipelined answer equals the one-at-a-time answer for no version %s" % (rid, k, d, sorted(set(vers)))
+            sig, gen = SIGS[kind]
+            ctx.oracle_fail(sig, gen + " — " + what, dict(case, request=rid, pipelined=ans, one_at_a_time=solos))
+        for (k, d), ans in zip(probes, res["probes"]):
+            last = hist["D"][-1]
+            want = bb_solo(wsdir, "D", last, [k])[k]
+            if ans != want:
+                sig, gen = SIGS["stale-table" if k in TABLE_KINDS else "stale-after"]
+                ctx.oracle_fail(sig, gen + " — probe %s after the batch differs from the one-at-a-time answer for version %d" % (k, last),
+                                dict(case, probe=k, after_batch=ans, one_at_a_time=want))
+    ctx.log("%d pipelined batches (%d requests) on the real binary in %.1fs" % (n, nreqs, time.time() - t0))
+    shutil.rmtree(wsdir, ignore_errors=True)
+    return nreqs
+
+
+RULE = ("(1) forced schedules on the real ProjectManager: every ordering at the hand-over points (start / op / change.window / parsed.unlocked / "
+        "analyze.checked / annot.published) of two threads — request x request over the request kinds and pre-states (fresh, saved cached, "
+        "changed, annotated, table cached), request x notification sequence (didChange / didSave / didClose / didOpen, one or two) — enumerated "
+        "as all thread-id sequences up to depth 8..9 and deduplicated by the sequence of hand-overs they force (thorough: also three threads), "
+        "plus random schedules of 2..9 threads (requests on two documents + notifications); every run is compared step by step with the model "
+        "(parking points, blocked threads, answer classes, allowed versions) and judged against solo answers of a fresh manager per version; "
+        "(2) the Lean witnesses replayed; (3) free-running stress on real parallel threads; (4) pipelined batches on the real binary vs one "
+        "request at a time. evaluations = runs; distinct_nontrivial = distinct forced hand-over sequences")
 
 
 def run(ctx):
+    ctx.trusted += [
+        "Lean 4.33 kernel + leanchecker; axioms ⊆ {propext, Classical.choice, Quot.sound}",
+        "hand-written interleaving model lean/GoldModel/Model/Conc.lean, tied to src/manager/{mod,document_service,semantic_analysis_service}.rs "
+        "and analyzers_v2/ast_annotator.rs by E7c_ConcFlags (code shapes) and by the `conc` correspondence: forced schedules on the real "
+        "ProjectManager vs the model's prediction, step by step",
+        "std::sync RwLock / Mutex by contract: mutual exclusion of the short critical sections (each one atomic step of the model), "
+        "try_lock fails iff held; the node locks and symbol-table mutexes taken inside the annotation walk are below the model's cut points",
+        "what the analysis computes is uninterpreted (provenance only): that equal provenance gives equal answers is checked by the oracle "
+        "(solo answers of fresh managers, version-tagged texts)",
+        "src/verif_hooks.rs (yield points + controller), harness/src/modes/conc.rs (blocked = sleeping in a futex wait, seen via /proc), "
+        "vlib/lsp.py, lean_exe compilation of the driver",
+    ]
+    ctx.assumptions += [
+        "notifications are handled one after the other on the main thread (main.rs); requests run on clones of the ProjectManager",
+        "requests are about documents that do not refer to a changing document (parent / used entities are fixed): cross-document staleness is C02's subject",
+        "the client rewrites a file before it sends didSave",
+    ]
     if ctx.replay:
         return replay(ctx)
     ctx.extract(["E7c_ConcFlags"])
+    ctx.prove("GoldModel.Props.C03")
     ws = os.path.join(WS, "c03-%d" % os.getpid())
     os.makedirs(ws, exist_ok=True)
-    if not ctx.build_harness():
-        return ctx.finish(rule=RULE)
-    ctx.lake_build(["driver"])
-    forced_part(ctx, ws)
-    shutil.rmtree(ws, ignore_errors=True)
-    return ctx.finish(rule=RULE)
+    try:
+        if not ctx.build_harness():
+            return ctx.finish(rule=RULE)
+        ctx.phase("witness-replay")
+        witness_part(ctx, ws)
+        ctx.phase("forced-schedules")
+        forced_part(ctx, ws)
+        ctx.phase("stress")
+        stress_part(ctx, ws)
+        ctx.phase("blackbox")
+        nbb = 0
+        if ctx.build_repo_bin():
+            nbb = blackbox_part(ctx, ws)
+    finally:
+        shutil.rmtree(ws, ignore_errors=True)
+    return ctx.finish(rule=RULE, extra={"exhaustive": True,
+                                        "exhaustive_space": "all orderings of two threads at the six hand-over points for the listed kinds x pre-states x notification sequences",
+                                        "stress": getattr(ctx, "coverage_stress", {}), "blackbox_requests": nbb})
 
 
 def replay(ctx):
-    return 1
+    d = json.load(open(ctx.replay))
+    case = d.get("case", {})
+    if not isinstance(case, dict) or ("case" not in case and "messages" not in case):
+        dis = d.get("disagreements") or []
+        if dis:
+            case = {"mode": "conc", "case": dis[0].get("case")}
+        else:
+            print("replay file names no input:", json.dumps(d.get("broken", d), indent=1)[:3000])
+            return 1
+    ctx.extract(["E7c_ConcFlags"])
+    ws = os.path.join(WS, "c03-replay-%d" % os.getpid())
+    os.makedirs(ws, exist_ok=True)
+    try:
+        if case.get("mode") == "blackbox":
+            ctx.build_repo_bin()
+            msgs = [tuple(m) for m in case["messages"]]
+            probes = [tuple(p) for p in case["probes"]]
+            bad = 0
+            for rep in range(10):
+                res = bb_batch(ctx, os.path.join(ws, "bb"), rep, msgs, probes)
+                print("run %d: %s" % (rep, "HANG %s" % res["hang"] if res["hang"] else "answered"))
+                if res["hang"]:
+                    bad += 1
+                    continue
+                hist = {"D": [1], "E": [1]}
+                for i, m in enumerate(msgs):
+                    if m[0] == "chg":
+                        hist[m[1]].append(m[2])
+                        continue
+                    allowed = hist[m[2]][len(hist[m[2]]) - 1:] + [x[2] for x in msgs[i + 1:] if x[0] == "chg" and x[1] == m[2]]
+                    solos = {v: bb_solo(os.path.join(ws, "bb"), m[2], v, [m[1]])[m[1]] for v in sorted(set(hist[m[2]] + allowed))}
+                    okv = [v for v in allowed if solos[v] == res["answers"][i + 1]]
+                    if not okv:
+                        bad += 1
+                        print("   #%d %s on a%s: equals the one-at-a-time answer of versions %s, allowed %s" %
+                              (i + 1, m[1], m[2], [v for v in solos if solos[v] == res["answers"][i + 1]], allowed))
+            if bad:
+                print("VIOLATION property=C03 replay=%s" % ctx.replay)
+                return 1
+            print("the pipelined answers equal one-at-a-time answers in 10 repetitions")
+            return 0
+        ctx.build_harness()
+        ctx.lake_build(["driver"])
+        line = case["case"]
+        words = line.split()
+        words[1] = core.esc(ws)
+        line = " ".join(words)
+        reps = 20 if any(w.startswith("X") for w in words[2:]) else 1
+        outs = run_conc(ctx, [line] * reps, 2, deadline_ms=90000)
+        model = ctx.run_driver([line])[0]
+        threads = [tuple(w.split("=")[1].split(":")) for w in words if w.startswith("T")]
+        probes = [tuple(w[1:].split(":")) for w in words if w.startswith("Q")]
+        bad = 0
+        print("case          :", " ".join(words[2:]))
+        if reps == 1:
+            print("model         :", model)
+        for o in outs[:5]:
+            print("implementation:", o)
+        for o in outs:
+            if o.startswith("stress"):
+                ps = parse_stress(o)
+                if ps is None or ps[2] != "ok":
+                    bad += 1
+                    continue
+                for t, cls, allowed in ps[0]:
+                    vs = versions_of(cls)
+                    if vs is None or not set(vs) & set(allowed):
+                        bad += 1
+                for (k, dd), (cls, last) in zip(probes, ps[1]):
+                    vs = versions_of(cls)
+                    if vs is None or last not in vs:
+                        bad += 1
+            else:
+                r = judge(threads, o)
+                fails, oo = r if isinstance(r, tuple) else (r, None)
+                if oo is not None and oo["fin"] == "ok":
+                    fails = fails + judge_probes(probes, oo)
+                for kind, what in fails:
+                    print("   %s: %s" % (SIGS[kind][0], what))
+                bad += len(fails)
+                if not same(o, model):
+                    print("   the model predicts something else")
+                    bad += 1
+        if bad:
+            print("VIOLATION property=C03 replay=%s" % ctx.replay)
+            return 1
+        print("the implementation satisfies the property on this case")
+        return 0
+    finally:
+        shutil.rmtree(ws, ignore_errors=True)
